@@ -714,9 +714,22 @@ func (m *Monitor) onBecameLeader(ev *Event, n *NodeSh, term uint64) {
 		}
 	}
 	// C07: every committed entry is in the new leader's log (pre-append shadow).
+	// The property speaks of entries committed in EARLIER terms. A node can enter the leader state of term T late -
+	// it collected its majority in T, but a leader of a later term was elected and committed entries before the
+	// node got to process the replies. Entries of a term >= T, and entries that were first seen committed after a
+	// leader of a later term had started, are not required of it.
+	cutoff := uint64(0)
+	for t, sq := range m.leaderSeq {
+		if t > term && (cutoff == 0 || sq < cutoff) {
+			cutoff = sq
+		}
+	}
 	missing := 0
 	var firstMissing uint64
 	for idx, ke := range m.K {
+		if ke.Term >= term || (cutoff != 0 && m.KSeq[idx] >= cutoff) {
+			continue
+		}
 		if idx <= n.base.Index {
 			if idx == n.base.Index && ke.Term != n.base.Term {
 				missing++
